@@ -218,6 +218,22 @@ CHECKS = {
              "reading of \\d/\\w). Inner anchors, \\b, inline flags are outside the property's list. F17 repaired.",
         technique="Coq proof (induction over the sre tree, derivative-matcher correspondence) + tape-scripted vm_compute correspondence + direct oracle",
         design="6 C09"),
+    "C07": dict(
+        text="Theorems (Coq, object-store model, operation histories of ANY length incl. caller mutations of every "
+             "container ever passed in): history_frame (with every storing site copying - sites_fresh - every pooled "
+             "schema denotes the same thing after any later sequence of operations), args_unchanged (only the caller's "
+             "own mutations write a caller container), replay_deterministic (an operation's outcome depends only on "
+             "the denotations of its arguments), history_frame_refuted (with the pre-F16 flag for ListSchema.__call__ "
+             "a three-step history changes an existing schema: the flags matter). Partial by nature: in a functional "
+             "model purity is by construction; that /repo's sites really copy and that d42 keeps no hidden state is "
+             "VALIDATED on every run by histories (60x40 quick, 500x200 thorough) with per-step snapshots of every "
+             "pooled schema (repr, props dump, verdicts on probes, generated value), argument dumps and identities, "
+             "immediate re-runs on clones, re-runs in a forked fresh process, and the model's per-step prediction.",
+        note=COMMON_NOTE + "Runtime behaviour the model cannot exhibit: CPython aliasing outside the modelled "
+             "containers (class attributes, default arguments, module singletons) - observed by the history check "
+             "only. F16 repaired by a fix: commit.",
+        technique="Coq proof (ownership invariant + induction over operation lists) + history-based differential oracle with shrinking + vm_compute correspondence",
+        design="6 C07"),
 }
 
 
